@@ -161,6 +161,11 @@ func mcEvents(family string, c sut.Config, o sut.Obs, iss map[string]int) []sut.
 			}
 		}
 	}
+	tocks := func(ds ...int) {
+		for _, d := range ds {
+			ev(sut.Event{Act: "Tock", D: d})
+		}
+	}
 	loginEvents := func() {
 		for _, b := range b12 {
 			for _, p := range []string{"u1", "u2", "g1"} {
@@ -193,7 +198,8 @@ func mcEvents(family string, c sut.Config, o sut.Obs, iss map[string]int) []sut.
 				ev(sut.Event{Act: "LoginPost", B: "b1", Pid: p, Pw: w})
 			}
 		}
-		ticks(1, c.LockWindow+1, c.LockDuration+1)
+		ticks(1, c.LockWindow, c.LockWindow+1, c.LockDuration, c.LockDuration+1)
+		tocks(5, 6)
 		ev(sut.Event{Act: "AdminLock", Pid: "u1"})
 		ev(sut.Event{Act: "AdminUnlock", Pid: "u1"})
 		ev(sut.Event{Act: "Probe", B: "b1"})
@@ -227,6 +233,7 @@ func mcEvents(family string, c sut.Config, o sut.Obs, iss map[string]int) []sut.
 		}
 		probeLogout()
 		ticks(1, c.ExpireAfter, c.ExpireAfter+1)
+		tocks(1, 5, 6)
 		ev(sut.Event{Act: "AppKey", B: "b1", K: "app1"})
 		ev(sut.Event{Act: "AppKey", B: "b1", K: "app2"})
 	case "recover":
@@ -248,6 +255,7 @@ func mcEvents(family string, c sut.Config, o sut.Obs, iss map[string]int) []sut.
 			}
 		}
 		ticks(1, 2)
+		tocks(5, 6)
 		ev(sut.Event{Act: "Probe", B: "b1"})
 		ev(sut.Event{Act: "Probe", B: "b2"})
 		if c.Has("lock") {
@@ -416,7 +424,7 @@ func (x *explorer) dfsL(left int, level int) {
 		return
 	}
 	x.visited[k] = left
-	if left == 0 || o.Now > x.maxNow {
+	if left == 0 || o.Now > x.maxNow*sut.G {
 		return
 	}
 	for _, n := range iss {
